@@ -187,6 +187,10 @@ inline std::string gen_numeral(Entropy &e) {
             // written exponent only compensates its own zeros: 0.000...025e+N and 1000...0E-N denote ordinary values
             static const unsigned zs[] = {998, 9995, 9999, 10000, 12345, 65536};
             const unsigned        z    = zs[hsel];
+            if ((nines & 6U) == 6U) { // a zero with an exponent of ten and more significant digits: still zero
+                static const char *ze[] = {"0e1234567890", "0E-1234567890", "0.0e+98765432101", "0.000E-10000000000", "0e12345678901234567890", "0.0e-4294967296"};
+                return s + ze[hsel];
+            }
             if ((nines & 2U) != 0) {
                 return s + "0." + std::string(z, '0') + "25e" + ((nines & 4U) ? "+" : "") + std::to_string(z + 1);
             }
